@@ -1100,3 +1100,77 @@ def dedup_total_rule(rep, F):
                         cur = t[2] if t[1] == "goto" else t[3] if t[1] == "drop" else None
                 if not gates or not (deps & sw):
                     rep.violation("DEDUP-total", "%s::%s|push-ungated" % (T, m), "%s::%s pushes an element without the ordered-set insert deciding it" % (T, m), {})
+
+
+# ---- the size a batch proposal is accepted on is the size after its last change ----------------------------------------------
+def size_fresh_rule(rep, F):
+    """SIZE-fresh: a proposal is accepted only behind `size <= max_tx_size` on the size returned by the LAST set_min_ada_for_tx"""
+    rep.rule("SIZE-fresh", "in every send-all function that sizes a proposal with set_min_ada_for_tx and then accepts it (TxProposalChanges::new): from each sizing call, the acceptance is reachable without another sizing call only through the edge of a comparison that certifies `that call's result <= config.max_tx_size` (operand origins name the call site). A size taken before further inputs were added (a shadowed variable, a gate hoisted above the top-up) does not certify the proposal that is returned")
+    import mustpass as _mp
+    import fieldflow as _ff
+    n = 0
+    for fid, fn in F.fns.items():
+        if "batch_tools" not in fid and "tx_batch_builder" not in fid:
+            continue
+        calls = F.calls(fid)
+        sizing = [c for c in calls if (c.to or "").endswith("AssetCategorizer::set_min_ada_for_tx")]
+        accept = [c for c in calls if (c.to or "").endswith("TxProposalChanges::new")]
+        if not sizing or not accept:
+            continue
+        org = _ff.Origins(F, fid)
+        bbs = fn["bbs"]
+        succ = {i: [x for x in _mp._succs(fn, i) if x is not None and not bbs[x]["c"]] for i in range(len(bbs)) if not bbs[i]["c"]}
+        # comparisons size ? max  ->  (switch block, edge certifying size <= max, set of sizing blocks named by the size operand)
+        gates = []
+        for bi, bb in enumerate(bbs):
+            if bb["c"]:
+                continue
+            for st in bb["st"]:
+                if not (st[1] == "=" and st[3][0] == "bin" and st[3][1] in ("Gt", "Lt", "Ge", "Le")):
+                    continue
+                oa, ob = org.of_operand(st[3][2]), org.of_operand(st[3][3])
+                is_max = lambda o: any(x.endswith("TransactionBuilderConfig.max_tx_size") for x in o)
+                szs = lambda o: {int(x.rsplit("@", 1)[1]) for x in o if x.startswith("call:") and x.split("@")[0].endswith("set_min_ada_for_tx")}
+                if is_max(ob) and szs(oa) and not is_max(oa):
+                    size_left, named = True, szs(oa)
+                elif is_max(oa) and szs(ob) and not is_max(ob):
+                    size_left, named = False, szs(ob)
+                else:
+                    continue
+                op = st[3][1]
+                # edge on which size <= max is certain: for size>max / size>=max the false edge, for size<=max / size<max the true edge
+                if not size_left:
+                    op = {"Gt": "Lt", "Lt": "Gt", "Ge": "Le", "Le": "Ge"}[op]
+                ok_edge_true = op in ("Le", "Lt")
+                t = bb["t"]
+                if t[1] != "switch" or _mp.op_place(t[2]) != st[2]:
+                    # the bool may be moved once before the switch
+                    continue
+                f = [tgt for v, tgt in t[3] if v == "0"]
+                if not f:
+                    continue
+                gates.append((bi, t[4] if ok_edge_true else f[0], named))
+        sz_bbs = {c.bb for c in sizing}
+        for s in sizing:
+            n += 1
+            rep.inst("SIZE-fresh")
+            cut = {(g, e) for g, e, named in gates if s.bb in named}
+            seen, work = set(), [s.target] if s.target is not None else []
+            hit = None
+            while work:
+                b = work.pop()
+                if b in seen or b is None or bbs[b]["c"]:
+                    continue
+                seen.add(b)
+                if b in sz_bbs and b != s.bb:
+                    continue
+                if any(a.bb == b for a in accept):
+                    hit = b
+                    break
+                for x in succ.get(b, []):
+                    if (b, x) in cut:
+                        continue
+                    work.append(x)
+            if hit is not None:
+                rep.violation("SIZE-fresh", "%s|sizing@%d" % (F.key(fid), [c.bb for c in sizing].index(s.bb)), "%s accepts the proposal (TxProposalChanges::new) after its %s set_min_ada_for_tx call without a comparison of *that* call's size with config.max_tx_size on the way (%d comparison(s) with max_tx_size exist, naming sizing calls %s): inputs added before this call (the ADA top-up and its witnesses) are not in the size that was tested, so create_send_all can return a transaction above max_tx_size" % (F.key(fid), ["first", "second", "third", "fourth"][min(3, [c.bb for c in sizing].index(s.bb))], len(gates), sorted({[c.bb for c in sizing].index(x) for g, e, nm in gates for x in nm if x in sz_bbs})), {"file": fn.get("file"), "line": s.line})
+    rep.floor("sizing calls followed by an acceptance (send-all)", 3, n)
